@@ -206,3 +206,30 @@ CLAIMED['C18'] = dict(
     note=TUI_NOTE + ' Known finding, not repaired (by design of the feature): the destination in the header line is never hidden, so the address of the target hop is on screen even when its ttl <= n '
          '(c18_destination_refuted; oracle tag C18:dest_in_header).',
     technique='Coq proof (case analysis of the Option<u8> comparison, parametric in the formatting function; walk invariant for expand/contract) + sentinel search in rendered frames + model prediction of privacy value and per-row H/N/V')
+
+# ---- whole-run extensions (Proofs/RunLog*.v, RunSemantics.v, SeqWalk.v, RoundFold.v, RoundNat.v, PublishAscending.v,
+#      SendErrorsProofs.v, IssuedProbes.v, ChecksumExtra.v)
+CLAIMED['C06']['text'] += (' WHOLE RUNS (Proofs/RunLog.v): the observation log of a run (sends with outcomes, deliveries, clock readings, publications) is judged by a specification that '
+    'never looks at the tracer state; for every accepted configuration and every environment behaviour: each probe sent carries the next ttl of the round, the send log of a round is '
+    'first_ttl, first_ttl+1, ... without gap or repeat (re-issues keep the ttl), every round sends the first-ttl probe, nothing is sent after a genuine answer of the target in that round, '
+    'and on a stable path nothing is ever sent above the established target distance in later rounds; the ghost of the log equals the fields the code holds (c06_state_is_ghost).')
+CLAIMED['C08']['text'] += (' WHOLE RUNS: every round published in any run satisfies the policy at the reading update_round took measured from the round start, every reading that leaves the round '
+    'open does not; the next round starts at the publish reading; under the environment assumption that consecutive update readings are at most D apart (one send + one read timeout) no round '
+    'is held open longer than max-round-duration + D (c08_held_open_bound). The receive path is tied to the assumption: one recv_probe call = one wait, one datagram (recv2 lines, wait counters).')
+CLAIMED['C07']['text'] += (' WHOLE RUNS (Proofs/SeqWalk.v): the sequence numbers handed to the network in any run follow the walk (consecutive inside a round, move-or-restart between rounds); '
+    'for ICMP/UDP no number of the preceding round is reused; Dublin/IPv6 payload lengths fit for every probe of every run; the TCP capacity error arises exactly when the 512 budget of a round '
+    'is used up by address-in-use re-issues (before the first send or after the last slot), never otherwise.')
+CLAIMED['C09']['text'] += (' WHOLE RUNS (Proofs/RunSemantics.v): with a round limit n and no fatal outcome the run publishes exactly n rounds and finishes; a finished run is final; an error '
+    'result is always exactly an error the environment injected, it ends the run in that iteration after the sends already made; transient send failures never end a run; the published rounds '
+    'read on the event trace: Skipped only for address-in-use sends, Failed only for transient failures of that probe.')
+CLAIMED['C05']['text'] += (' LOSS CLASSIFICATION now proved (Proofs/RoundFold.v, RoundNat.v, PublishAscending.v): is_forward_loss means "first awaited probe after which nothing answers"; at most one forward loss '
+    'per round, never also a backward loss; Failed probes are never loss; for the ascending rounds the strategy publishes (proved for every run) the awaited probes inside the answered part are neither, '
+    'the first of the trailing unanswered run is forward loss, the rest backward loss; after ANY list of published rounds every hop is hop_run of exactly the events those rounds hold for its ttl, '
+    'also through State::update_from_round per flow.')
+CLAIMED['C19']['text'] += (' Per-round NAT fold over whole histories of rounds (Proofs/RoundNat.v): the carried checksum restarts each round from the first responding hop; the expected checksum of an unrewritten probe equals the '
+    'quoted one (Proofs/NatLink.v), so detection happens only at rewriting devices.')
+CLAIMED['C11']['text'] += (' UNDER ERRORS (Proofs/SendErrorsProofs.v): for every cell and every list of injected socket errors the calls made are a prefix of the error-free list (nothing added, reordered or changed), '
+    'the datagram handed to send_to is the error-free datagram, connect / send_to is always the last call after every option was set; ErrorMapper tables per family as written. '
+    'GLUE (Proofs/IssuedProbes.v): every probe the strategy issues lies in the quantifier domain of the dispatch theorems, and its sequence / identifier / ports are the fields read back from the wire per cell.')
+CLAIMED['C13']['text'] += (' Extra (Proofs/ChecksumExtra.v): the Paris datagram over IPv6 (RFC 8200 pseudo-header, payload octets chosen so that checksum = sequence) verifies and the choice is unique; '
+    'the word skipped by the codecs is the checksum word for every data string; Paris over IPv4 stated with RFC 768 pseudo-header octets.')
